@@ -19,7 +19,9 @@ Inductive qop :=
   | QDivNum (a : Q) (u : unit) (k : Q)
   | QUnitCmp (op : cmpop) (u v : unit)
   | QUnitEq (u v : unit)
-  | QSum (l : list qty).
+  | QSum (l : list qty)
+  | QQuantize (is_dec : bool) (a : Q) (u : unit) (b : Q) (v : unit) (rm : option mode)
+  | QRound (is_dec : bool) (a : Q) (u : unit) (nd : Z).
 
 Record qcase := mkQCase {
   qc_dm : mode;
@@ -52,6 +54,8 @@ Definition q_model (c : qcase) : obs :=
   | QDivNum a u k => obs_res_qty (qty_div_num dm (mkQty a u) k)
   | QUnitCmp op u v => obs_res_bool (unit_cmp op u v)
   | QUnitEq u v => obs_res_bool (unit_eq u v)
+  | QQuantize d a u b v rm => obs_res_qty (quantize ce dm d (mkQty a u) (mkQty b v) rm)
+  | QRound d a u nd => obs_qty (qty_round dm d (mkQty a u) nd)
   | QSum l => match l with
               | [] => ONum 0
               | p :: r => obs_res_qty (qty_sum_from ce dm p r)
